@@ -19,6 +19,9 @@ Local Arguments Nat.div : simpl never.
 Local Arguments Nat.modulo : simpl never.
 Local Arguments from_0xhex : simpl never.
 Local Arguments two64 : simpl never.
+Local Arguments u64chunk : simpl never.
+Local Arguments true_chunk : simpl never.
+Local Arguments zero_chunk : simpl never.
 
 Lemma path_eqb_eq : forall a b, path_eqb a b = true -> a = b.
 Proof.
@@ -69,12 +72,12 @@ Proof.
   intros p e cs k A D E. destruct p; simpl in A, E; try discriminate;
     try (inversion A; subst; inversion E; reflexivity).
   - (* PutBytes *)
-    destruct b; try (destruct declared as [n|]; [|discriminate];
-      destruct (0 <? n) eqn:P; [|discriminate]; inversion A; subst;
-      simpl in D; apply Nat.ltb_lt in P;
-      match type of E with context [match ?X with _ => _ end] => destruct X eqn:EV end; [|discriminate];
-      apply Nat.eqb_eq in D; eapply put_bytes_len1; [|exact E]; lia).
-    inversion A; subst. simpl in E. inversion E. reflexivity.
+    destruct (is_nil b) eqn:NB.
+    + destruct b; try discriminate. inversion A; subst. simpl in E. inversion E. reflexivity.
+    + destruct declared as [n|]; [|discriminate]. destruct (0 <? n) eqn:P; [|discriminate].
+      inversion A; subst. simpl in D. apply Nat.ltb_lt in P.
+      destruct (evalb b e) as [x|] eqn:EV; [|discriminate].
+      apply Nat.eqb_eq in D. eapply put_bytes_len1; [|exact E]. lia.
   - (* PutBytesN *)
     destruct (0 <? n) eqn:P; [|discriminate]. inversion A; subst. apply Nat.ltb_lt in P.
     destruct (evalb b e); [|discriminate]. eapply put_bytes_n_len1; eauto.
@@ -181,7 +184,7 @@ Proof.
   apply mod_small_eq in LN; try lia. apply Nat2N.inj in LN.
   rewrite <- LN in K2, M2.
   assert (c1 = c2).
-  { apply CS. erewrite (k1_chunks_len _ x c1), (k1_chunks_len _ y c2); eauto. }
+  { apply CS. rewrite (k1_chunks_len _ _ _ M1 K1), (k1_chunks_len _ _ _ M2 K2). reflexivity. }
   subst c2. eapply k1_chunks_inj; [exact M1|exact M2|exact K1|exact K2].
 Qed.
 
@@ -213,7 +216,8 @@ Proof.
   destruct (merkleize H _ (u64array_limit max (N.of_nat (length l2)))) as [m2|] eqn:M2; [|discriminate].
   inversion E1; inversion E2; subst. apply H_inj in H2. destruct H2 as [Hm Hn]. subst m2.
   apply u64chunk_inj in Hn. apply mod_small_eq in Hn; auto. apply Nat2N.inj in Hn.
-  rewrite <- Hn in M2.
+  assert (Hl : length l2 = length l1) by congruence.
+  rewrite Hl in M2.
   apply le_bytes8_flat_inj; auto.
   apply chunks_of_inj; [rewrite !flat_le8_len; lia|].
   eapply (merkleize_inj H H_inj); [|exact M1|exact M2].
@@ -287,24 +291,30 @@ Proof.
   - rewrite (seq_len ps v2 a2), (seq_len ps v1 a1); auto.
 Qed.
 
-Theorem interp_injective : forall p, inj_p p.
+(* the induction carries, for a loop, the statement about its body (the loop itself is only
+   well-formed as the content of a length-mixed list) *)
+Definition body_inj (p : hprog) : Prop :=
+  match p with ForEach _ qs => Forall inj_p qs | _ => True end.
+
+Lemma interp_injective_strong : forall p, inj_p p /\ body_inj p.
 Proof.
-  induction p using hprog_ind'; unfold inj_p; intros e1 e2 cs W D1 D2 E1 E2; simpl in E1, E2; simpl.
-  - (* PutU64 *) inversion E1; subst. inversion E2. apply u64chunk_inj in H1. rewrite H1. reflexivity.
+  induction p using hprog_ind'; (split; [|try exact I]);
+    try (unfold inj_p; intros e1 e2 cs W D1 D2 E1 E2; simpl in E1, E2; simpl).
+  - (* PutU64 *)
+    assert (X : u64chunk (as_num (get e1 f)) = u64chunk (as_num (get e2 f))) by congruence.
+    apply u64chunk_inj in X. fold two64 in X. rewrite X. reflexivity.
   - reflexivity.
-  - (* PutBool *) inversion E1; subst. inversion E2.
-    destruct (as_bool (get e1 f)), (as_bool (get e2 f)); auto.
-    + exfalso. apply true_chunk_neq. symmetry. exact H1.
-    + exfalso. apply true_chunk_neq. exact H1.
+  - (* PutBool *)
+    destruct (as_bool (get e1 f)), (as_bool (get e2 f)); auto; exfalso; apply true_chunk_neq; congruence.
   - (* PutBytes *)
-    destruct b; try (destruct d as [n|]; [|discriminate];
-      simpl in W; unfold has_arity in W; simpl in W; destruct (0 <? n) eqn:P; [|discriminate];
-      simpl in D1, D2;
-      match type of E1 with context [match ?X with _ => _ end] => destruct X as [x|] eqn:EV1 end; [|discriminate];
-      match type of E2 with context [match ?X with _ => _ end] => destruct X as [y|] eqn:EV2 end; [|discriminate];
-      apply Nat.eqb_eq in D1, D2; simpl; f_equal; f_equal;
-      eapply (put_bytes_inj H H_inj); [|exact E1|exact E2]; lia).
-    reflexivity.
+    simpl in W. unfold has_arity in W. simpl in W. destruct (is_nil b) eqn:NB.
+    + destruct b; try discriminate. reflexivity.
+    + destruct d as [n|]; [|discriminate]. destruct (0 <? n) eqn:P; [|discriminate].
+      simpl in D1, D2. apply Nat.ltb_lt in P.
+      destruct (evalb b e1) as [x|] eqn:EV1; [|discriminate].
+      destruct (evalb b e2) as [y|] eqn:EV2; [|discriminate].
+      apply Nat.eqb_eq in D1, D2. simpl. f_equal. f_equal.
+      eapply (put_bytes_inj H H_inj); [|exact E1|exact E2]. lia.
   - (* PutBytesN *)
     simpl in W. apply Nat.ltb_lt in W.
     destruct (evalb b e1) as [x|]; [|discriminate]. destruct (evalb b e2) as [y|]; [|discriminate].
@@ -337,11 +347,12 @@ Proof.
     { eapply (merkleize_inj H H_inj); [|exact E1|exact E2].
       rewrite (seq_len ps e1 c1), (seq_len ps e2 c2); auto. }
     subst c2. eapply seq_inj; eauto.
+    eapply Forall_impl; [|exact H0]. intros q [Q _]. exact Q.
   - (* MerkMixin *)
     simpl in W. destruct ps as [|[] [|]]; try discriminate.
     apply andb_true_iff in W. destruct W as [W A]. apply andb_true_iff in W. destruct W as [W WQ].
     apply andb_true_iff in W. destruct W as [PE LO]. apply path_eqb_eq in PE. subst f0.
-    inversion H0 as [|? ? IQ _]; subst. clear H0.
+    inversion H0 as [|? ? [_ IB] _]; subst. clear H0. simpl in IB.
     simpl in D1, D2.
     apply andb_true_iff in D1. destruct D1 as [B1 D1]. apply andb_true_iff in D1. destruct D1 as [D1 _].
     apply andb_true_iff in D2. destruct D2 as [B2 D2]. apply andb_true_iff in D2. destruct D2 as [D2 _].
@@ -361,18 +372,38 @@ Proof.
     assert (LIM : limit_of l e2 = limit_of l e1).
     { destruct l; simpl in *; auto. apply path_eqb_eq in LO. subst f0. rewrite Hn. reflexivity. }
     rewrite LIM in M2.
-    (* the quantified hypothesis about the loop body *)
-    assert (IB : Forall inj_p ps).
-    { clear - IQ. unfold inj_p in IQ.
-      (* inj_p (ForEach f ps) is vacuous (wf false); recover the body facts from the nested principle *)
-      exact (Forall_inj_body _ _ IQ). }
     assert (c1 = c2).
     { eapply (merkleize_inj H H_inj); [|exact M1|exact M2].
-      rewrite (each_len ps _ c1), (each_len ps _ c2); auto. lia. }
+      rewrite (each_len ps (as_list (get e1 f)) c1), (each_len ps (as_list (get e2 f)) c2); auto. }
     subst c2. simpl. rewrite !app_nil_r. rewrite Hn. f_equal.
     eapply each_inj; eauto.
   - (* ForEach *) discriminate.
+  - simpl. eapply Forall_impl; [|exact H0]. intros q [Q _]. exact Q.
   - (* IfNonEmpty *) discriminate.
 Qed.
 
+Theorem interp_injective : forall p, inj_p p.
+Proof. intro p. exact (proj1 (interp_injective_strong p)). Qed.
+
+(* The statement in terms of the root (hh.HashRoot()). *)
+Theorem root_injective : forall p e1 e2 r,
+  wf p = true -> dom p e1 = true -> dom p e2 = true ->
+  root H p e1 = Some r -> root H p e2 = Some r -> fields p e1 = fields p e2.
+Proof.
+  unfold root. intros p e1 e2 r W D1 D2 R1 R2.
+  destruct (interp H p e1) as [[|c1 [|]]|] eqn:I1; try discriminate.
+  destruct (interp H p e2) as [[|c2 [|]]|] eqn:I2; try discriminate.
+  inversion R1; inversion R2; subst.
+  eapply interp_injective; eauto.
+Qed.
+
 End Facts.
+
+(* The hypothesis on H is satisfiable (the theorems are not vacuous): an injective pairing. *)
+Definition pairH (a b : chunk) : chunk := N.of_nat (length a) :: a ++ b.
+
+Lemma pairH_inj : forall a b c d, pairH a b = pairH c d -> a = c /\ b = d.
+Proof.
+  unfold pairH. intros a b c d E. inversion E as [[L E']]. apply Nat2N.inj in L.
+  apply app_inj_len in E'; auto.
+Qed.
